@@ -18,7 +18,7 @@
    filter (near misses such as checkpoint_1 or checkpoint_000000011 are allowed) and it holds no
    final-evaluation file yet; the empty directory is fresh. *)
 From Coq Require Import ZArith List Bool.
-From FV Require Import Common.PySem Common.PyStr Common.AtomFS gen.Gen_checkpoint gen.Gen_state_io
+From FV Require Import Common.PySem Common.PyStr Common.AtomFS gen.Gen_checkpoint gen.Gen_federated_experiment gen.Gen_state_io
   Model.C09_Model Proofs.C09_Proofs.
 Import ListNotations.
 Local Open Scope Z_scope.
@@ -120,6 +120,13 @@ End C09.
 Theorem C09_state_io_anchored : save_state_is_plain_pickle = true /\ load_state_is_plain_unpickle = true.
 Proof. exact state_io_anchored. Qed.
 
+(* recognised on this run (fail-closed): checkpoint.py and run_federated_experiment use no hash(), id(), uuid,
+   random, os.environ, pid; the clock only flows into logged durations -- so a resumed call in a NEW process (other
+   PYTHONHASHSEED) is the same function of the directory *)
+Theorem C09_code_is_process_independent :
+  checkpoint_code_is_process_independent = true /\ Gen_federated_experiment.experiment_loop_is_process_independent = true.
+Proof. exact process_independent. Qed.
+
 (* the empty directory and the harness's directory of near-miss names are fresh *)
 Theorem C09_fresh_examples : @Proofs.C09_Proofs.fresh (list Z) [] /\ @Proofs.C09_Proofs.fresh (list Z) foreign_dir.
 Proof. exact fresh_examples. Qed.
@@ -166,6 +173,7 @@ Print Assumptions C09_run_follows_rename_discipline.
 Print Assumptions C09_run_never_tears.
 Print Assumptions C09_foreign_files_untouched.
 Print Assumptions C09_state_io_anchored.
+Print Assumptions C09_code_is_process_independent.
 Print Assumptions C09_fresh_examples.
 Print Assumptions C09_state_at_is_iter.
 Print Assumptions C09_tmp_then_rename_atomic.
